@@ -52,39 +52,42 @@ def f32_name(n):
     return n.startswith("$")
 
 
+def unalias(body):
+    """`X AS X` -> X.  Since fix 68466ba a name containing the quote character gets a redundant alias of the same spelling
+    (translate_select_item compares the Ident's now pre-doubled value with the column name); same object, same name."""
+    h = len(body) - 4
+    if h > 0 and h % 2 == 0 and body[h // 2:h // 2 + 4] == " AS " and body[:h // 2] == body[h // 2 + 4:]:
+        return body[:h // 2]
+    return body
+
+
+def keyword_words(kinfo):
+    """(common, redshift-only) upper-case keyword sets; from the translator when it succeeded, else leniently from the
+    source text + the harness dump (so the search still knows what must be quoted)"""
+    import re
+    from ..common import REPO, harness1
+    import os
+    if "error" not in kinfo:
+        common = set()
+        for k in ("SQLITE_KEYWORDS", "POSTGRES_KEYWORDS", "DUCKDB_KEYWORDS", "BIGQUERY_KEYWORDS", "column_alias", "table_alias"):
+            common |= set(kinfo[k])
+        return common, set(kinfo["REDSHIFT_KEYWORDS"]) - common
+    try:
+        txt = open(os.path.join(REPO, "prqlc/prqlc/src/sql/keywords.rs"), encoding="utf-8").read()
+    except OSError:
+        return set(), set()
+    txt = txt.split("#[test]")[0]
+    head, _, red = txt.partition("const REDSHIFT_KEYWORDS")
+    common = set(re.findall(r'^\s*"([A-Z][A-Z0-9_]*)",\s*$', head, re.M))
+    dump = harness1("c09_kw", {})
+    common |= set(dump.get("column_alias", [])) | set(dump.get("table_alias", []))
+    return common, set(re.findall(r'^\s*"([A-Z][A-Z0-9_]*)",\s*$', red, re.M)) - common
+
+
 def f33_name(n):
     """spelled like a generated name up to letter case, but not exactly"""
     import re
     return fold(n) != n and re.fullmatch(r"(table_|_expr_)[0-9]+", fold(n)) is not None
-
-
-def split_names_sim(cols, n, prefix="_expr_"):      # prefix: see COL_PREFIX
-    """python mirror of Model/NameGen.v split_names (anchor_split): names after the split"""
-    used, out = set(), []
-    for c in cols:
-        if c in used:
-            c = prefix + str(n)
-            n += 1
-        used.add(c); out.append(c)
-    return out
-
-
-COL_PREFIX = ["_expr_"]
-
-
-def f31_case(case):
-    """the column names at the first split, and the generator state there, for the skeletons that produce a duplicate"""
-    nm = case.get("cols")
-    if not nm:
-        return False
-    K, C1, C2, C3 = nm
-    if case.get("skeleton") == "split-dup":
-        out = split_names_sim([C1, K, K], 0, COL_PREFIX[0])
-    elif case.get("skeleton") == "sortexpr":
-        out = split_names_sim([C1, C2, COL_PREFIX[0] + "0"], 1, COL_PREFIX[0])      # the computed sort key was named _expr_0 before the split
-    else:
-        return False
-    return len(set(out)) != len(out)
 
 
 def run():
@@ -100,13 +103,8 @@ def run():
             ck.coverage.setdefault("translator_error", []).append(inf["error"])
 
     def cl_names(case):
+        # F18, F32, F31 are FIXED (68466ba, b5c2cd4, 75c6718): nothing excuses them any more
         names = case.get("names", [])
-        if any(f18_name(n) for n in names):
-            return "F18-ident-quote-pairs-not-doubled"
-        if any(f32_name(n) for n in names):
-            return "F32-dollar-initial-ident-bare"
-        if f31_case(case):
-            return "F31-split-rename-unchecked"
         if any(f33_name(n) for n in names):
             return "F33-generated-name-case-clash"
         return None
@@ -118,6 +116,11 @@ def run():
         pool3 = ["".join(t) for t in itertools.product(SYMS, repeat=3)]
         names += ck.rng.sample(pool3, 400)
     names += EXTRA_NAMES
+    # every keyword prqlc is supposed to quote, whatever its shape (CURRENT_DATE, SESSION_USER, ...), read leniently from
+    # the source so that the list survives a translator that failed closed
+    kw_common, kw_redshift = keyword_words(kinfo)
+    kw_lower = sorted(w.lower() for w in kw_common | kw_redshift)
+    names += kw_lower if ck.thorough else ([w for w in kw_lower if not w.isalpha()] + ck.rng.sample(kw_lower, 60))
     names = [n for n in dict.fromkeys(names) if n != "*"]
 
     # ------------------------------------------------------------ 1. emit_ident model vs compile output, all dialects
@@ -151,7 +154,7 @@ def run():
                 sql = a["ok"]
                 tail = " FROM " + ('"t"' if d == "snowflake" else "t")
                 if sql.startswith("SELECT ") and sql.endswith(tail):
-                    got = sql[len("SELECT "):-len(tail)]
+                    got = unalias(sql[len("SELECT "):-len(tail)])
             if d == "sqlite":
                 sqlite_emit[n] = got
             if got is None:
@@ -175,7 +178,7 @@ def run():
             if d in ("postgres", "clickhouse", "sqlite", "mysql") and "ok" in a:
                 sql = a["ok"]
                 if sql.startswith("SELECT ") and sql.endswith(" FROM t"):
-                    den_cases.append((n, d, sql[len("SELECT "):-len(" FROM t")]))
+                    den_cases.append((n, d, unalias(sql[len("SELECT "):-len(" FROM t")])))
     try:
         B = 200
         fk = {"postgres": "FoldLower", "clickhouse": "FoldNone", "sqlite": "FoldNone", "mysql": "FoldNone"}
@@ -190,25 +193,47 @@ def run():
     except RuntimeError as ex:
         ck.coverage["model_eval_error_den"] = str(ex)[-400:]
 
+    # keywords must come out quoted, in every letter case, for every dialect (redshift's own list: for redshift):
+    # judged on prqlc's output alone (no model needed)
+    qchar = {d: ("`" if d in ("bigquery", "clickhouse", "mysql") else '"') for d in DIALECTS}
+    if "dialects" in dinfo:
+        qchar = {n: chr(q) for n, q, _ in dinfo["dialects"]}
+    kreqs, kmeta = [], []
+    for w in sorted(kw_common | kw_redshift):
+        for form in (w.lower(), w.capitalize()) if not ck.thorough else (w.lower(), w, w.capitalize()):
+            for d in DIALECTS:
+                if w in kw_common or d == "redshift":
+                    kreqs.append({"src": "from t | select {this.%s}" % bt(form), "target": "sql." + d}); kmeta.append((form, d))
+    for (form, d), a in zip(kmeta, harness("compile", kreqs)):
+        ck.count("keyword-quoted", d + "|" + form)
+        sql = a.get("ok", "")
+        body = unalias(sql[len("SELECT "):sql.rfind(" FROM ")]) if sql.startswith("SELECT ") else None
+        if body is None or not (body.startswith(qchar.get(d, '"')) and body.endswith(qchar.get(d, '"'))):
+            ck.disagreement("the keyword %r is not quoted for %s: %r" % (form, d, sql or a), {"kind": "keyword-quoted", "names": [form], "dialect": d, "sql": sql or str(a)[:200]}, cl_names)
+
     # quote doubling: model emit_quoted vs sqlparser Ident Display, exhaustive short strings
     qalpha = ['"', "`", "\\", "a", "'", " "]
     qstrings = ["".join(t) for n in range(0, ck.n(4, 5) + 1) for t in itertools.product(qalpha, repeat=n)]
     for q, qc in (('"', 34), ("`", 96)):
-        impl = harness("escape", [{"s": s, "quote": q} for s in qstrings])
+        impl = harness("escape", [{"s": s, "quote": q} for s in qstrings])                          # sqlparser alone (dependency)
+        impl2 = harness("escape", [{"s": s.replace(q, q + q), "quote": q} for s in qstrings])       # what prqlc does now: pre-doubled
         try:
             B = 200
-            vals = coq_eval(HEADER, ["map (emit_quoted %d) [%s]" % (qc, "; ".join(coq_codes(s) for s in qstrings[i:i + B])) for i in range(0, len(qstrings), B)])
-            mq = [s_of(x) for v in vals for x in v]
-            for s, m, a in zip(qstrings, mq, impl):
+            vals = coq_eval(HEADER, ["map (fun s => (emit_quoted %d s, emit_ident_quoted %d s)) [%s]" % (qc, qc, "; ".join(coq_codes(s) for s in qstrings[i:i + B])) for i in range(0, len(qstrings), B)])
+            mq = [(s_of(x[0]), s_of(x[1])) for v in vals for x in v]
+            for s, m, a, a2 in zip(qstrings, mq, impl, impl2):
                 ck.count("quote-model", q + "|" + s, nontrivial=(q in s))
-                if m != a["ident"]:
-                    ck.violation("model of Ident Display differs from sqlparser for %r" % s, {"kind": "quote-model", "s": s, "quote": q, "model": m, "impl": a["ident"]})
+                if m[0] != a["ident"]:
+                    ck.violation("model of Ident Display differs from sqlparser for %r" % s, {"kind": "quote-model", "s": s, "quote": q, "model": m[0], "impl": a["ident"]})
+                if m[1] != a2["ident"]:
+                    ck.violation("model emit_ident_quoted differs from pre-doubling + sqlparser for %r" % s, {"kind": "quote-model2", "s": s, "quote": q, "model": m[1], "impl": a2["ident"]})
         except RuntimeError as ex:
             ck.coverage["model_eval_error_q"] = str(ex)[-400:]
 
     # ------------------------------------------------------------ 2. keywords of the executing engine are usable when written in PRQL
     # (every SQLite keyword as a column name; executed in section 3 through the generic machinery)
-    kw_names = [w.lower() for w in (kinfo.get("sqlite_engine") or [])][:: ck.n(5, 1)]
+    eng = [w.lower() for w in (kinfo.get("sqlite_engine") or sorted(kw_common))]
+    kw_names = list(dict.fromkeys([w for w in eng if not w.isalpha()] + eng[:: ck.n(5, 1)]))
 
     # ------------------------------------------------------------ 3. end to end on SQLite
     PERM = [lambda r: r, lambda r: 5 - r, lambda r: (r * 2) % 5, lambda r: (r * 3) % 5, lambda r: (r * 4) % 5]
@@ -291,6 +316,10 @@ def run():
             # two instances of one table in one SELECT: the second needs a generated alias (RelVarNameAssigner)
             src = "from %s | join %s (==%s) | select {%s.%s, %s.%s}" % (fromT, tT, bt(K), refT, bt(C1), refT, bt(C2))
             exp = [(r[C1], r[C2]) for r in rt]
+        elif skeleton == "join-selfjoin":
+            # a second table first, then a second instance of the first table: the generated alias must avoid BOTH
+            src = "from %s | join %s (==%s) | join side:left %s (this.%s.%s == that.%s.%s)" % (fromT, joinU, bt(K), tT, refT, bt(K), tT, bt(K))
+            exp = [tuple(a[x] for x in cols_t) + tuple(b[x] for x in cols_u) + tuple(a[x] for x in cols_t) for a in rt for b in ru if a[K] == b[K]]
         elif skeleton == "join-sub":
             # an unnamed sub-pipeline as join operand: needs a generated CTE name (assign_names)
             src = "from %s | join (from %s | select {%s, %s} | take 4) (==%s) | select {%s.%s, %s}" % (fromT, tU, c(K), c(C2), bt(K), refT, bt(C1), c(C2))
@@ -308,7 +337,7 @@ def run():
         tests.append({"src": src, "setup": setup, "expected": sorted(exp), "names": [n for n in (T, U, alias_t, alias_u, K, C1, C2, C3) if n], "skeleton": skeleton, "position": position,
                       "cols": [K, C1, C2, C3]})
 
-    SKELS = ["select", "split1", "split1-declared", "split2", "split3", "sortexpr", "join", "join-split", "group", "selfjoin", "join-sub"]
+    SKELS = ["select", "split1", "split1-declared", "split2", "split3", "sortexpr", "join", "join-split", "group", "selfjoin", "join-sub", "join-selfjoin"]
     for i, n in enumerate(names + kw_names):
         av = {fold(n)}
         T, U, K, C1, C2, C3 = distinct_names(["tt", "uu", "kk", "p", "q", "r"], av)
@@ -332,13 +361,14 @@ def run():
             add_test("join", "alias2", T, U, None, n, K, C1, C2, C3)
     # user objects literally named like generated ones, together, in every skeleton, with and without declaring the columns
     tp, cp = dinfo.get("table_prefix", "table_"), dinfo.get("col_prefix", "_expr_")      # what the generators produce NOW
-    COL_PREFIX[0] = cp
     for sk in SKELS:
         add_test(sk, "generated-like", tp + "0", tp + "1", None, None, cp + "2", cp + "0", cp + "1", "c")
         add_test(sk, "generated-like", tp + "1", tp + "0", None, None, "k", cp + "1", cp + "0", cp + "2")
         add_test(sk, "generated-like", "t", "u", tp + "0", tp + "1", "k", cp + "0", "b", cp + "1")
         add_test(sk, "generated-like", tp + "0", "u", tp + "1", tp + "0", "k", "a", cp + "0", "c")
         add_test(sk, "generated-like", tp + "2", tp + "1", None, None, "k", cp + "0", cp + "2", cp + "1")
+        add_test(sk, "generated-like", "t", tp + "0", None, None, "k", "a", "b", "c")
+        add_test(sk, "generated-like", "t", tp + "1", None, tp + "0", "k", "a", cp + "0", "c")
     for c1 in (cp + "0", cp + "1", "a", cp + "2"):
         add_test("split-dup", "generated-like", "t", "u", None, None, "k", c1, "b", "c")
 
